@@ -18,6 +18,7 @@ import (
 	"errors"
 	"net/http"
 	"os"
+	"path"
 	"path/filepath"
 	"strings"
 	"syscall"
@@ -85,6 +86,10 @@ func newStaticFile(root string, filename string, encodingList []string, m *Modul
 	s := new(staticFile)
 	s.m = m
 	s.extension = filepath.Ext(filename)
+
+	// resolve dot segments before probing for pre-compressed siblings, so that
+	// the probe (like http.Dir.Open below) never leaves the root directory
+	filename = path.Clean("/" + filename)
 
 	for _, encoding := range encodingList {
 		ext := ConvertEncodeToExt(encoding)
